@@ -136,16 +136,22 @@ impl fmt::Display for CellText {
 pub struct Text {
     pub start: Point,
     pub text: String,
+    /// the scale applied to `start` so far, the extent of the text scales with it
+    scale: f32,
 }
 
 impl Text {
     pub fn new(start: Point, text: String) -> Self {
-        Text { start, text }
+        Text {
+            start,
+            text,
+            scale: 1.0,
+        }
     }
 
     /// get the textwidth in terms of cell grid points
     fn text_width(&self) -> f32 {
-        self.text.len() as f32 * CellGrid::width()
+        self.text.len() as f32 * CellGrid::width() * self.scale
     }
 
     pub(crate) fn absolute_position(&self, cell: Cell) -> Self {
@@ -158,6 +164,7 @@ impl Text {
     pub(crate) fn scale(&self, scale: f32) -> Self {
         Text {
             start: self.start.scale(scale),
+            scale: self.scale * scale,
             ..self.clone()
         }
     }
